@@ -70,7 +70,7 @@ package errors
 // bytes is shown in full; a longer one is cut to its first 197 bytes plus "..."
 //@   ensures e.file != nil && len(e.file.content) > 0 && lineEndOf(e.file.content, e.nl, e.index) - lineStartOf(e.file.content, e.nl, e.index) <= 200
 //@           ==> len(result) <= lineEndOf(e.file.content, e.nl, e.index) - lineStartOf(e.file.content, e.nl, e.index)
-//@               && (forall j :: lineStartOf(e.file.content, e.nl, e.index) <= j && j < lineEndOf(e.file.content, e.nl, e.index) - len(result) ==> isBlank(e.file.content[j]))
+//@               && (forall j {e.file.content[j]} :: lineStartOf(e.file.content, e.nl, e.index) <= j && j < lineEndOf(e.file.content, e.nl, e.index) - len(result) ==> isBlank(e.file.content[j]))
 //@               && (forall j {result[j]} :: 0 <= j && j < len(result) ==> result[j] == e.file.content[lineEndOf(e.file.content, e.nl, e.index) - len(result) + j])
 //@   ensures e.file != nil && len(e.file.content) > 0 && lineEndOf(e.file.content, e.nl, e.index) - lineStartOf(e.file.content, e.nl, e.index) > 200
 //@           ==> len(result) >= 3 && result[len(result) - 1] == '.' && result[len(result) - 2] == '.' && result[len(result) - 3] == '.'
